@@ -225,8 +225,11 @@ def execute(scenario, chooser):
             for spec in scenario['jobs']:
                 if spec['name'] == op['name']:
                     ag = state['agents'].get(spec['id'])
-                    th = getattr(ag, '_thread', None) if ag else None
-                    stt = getattr(th, '_st', None) if th else None
+                    stt = None
+                    for t in sim.threads:
+                        if ag is not None and getattr(
+                                t.target, '__self__', None) is ag:
+                            stt = t
                     data['ended'] = stt is not None and stt.state == 'done'
         inv = hist.add('inv', op=kind, client=cidx, **data)
         ret = None
